@@ -583,6 +583,33 @@ def r07_6(ctx):
                               "clean and build can disagree about which lines belong to a directive" % (what, role_name, sorted(lm)), site=ctx.site(b, bb))
 
 
+@rule("C07", "R07.7", floor=1)
+def r07_7(ctx):
+    """clean removes every temp target it can resolve: in the Clean region of the temp writer an Ok return is reached only past
+    remove_file or on the failed-resolution edge (target absent) — no other shortcut (such as "already has this content") skips it"""
+    lib = ctx.lib
+    wt = body(ctx, "write_temp_file")
+    if not wt:
+        return
+    clean_e = enum_edges(wt, lib, ADT["CtxOut"], lambda vs: vs == {"Clean"}) | enum_edges(wt, lib, ADT["Mode"], lambda vs: vs == {"Clean"})
+    if not clean_e:
+        ctx.anchor_missing("Clean edge in write_temp_file")
+        return
+    removes = [bb for bb, t in calls_to(wt, "std::fs::remove_file")]
+    if not removes:
+        ctx.violation(["no-remove"], "the temp writer no longer removes the temp target in clean mode", site=ctx.site(wt, 0))
+        return
+    unresolved = enum_edges(wt, lib, "std::result::Result", lambda vs: vs == {"Err"}, src_pred=lambda c: has_call(c.src, ROLE["try_resolve"]))
+    cut = out_edges(wt, removes) | unresolved
+    _vis, marked, _prev = C.explore(wt, cut=cut, mark_edges=clean_e)
+    bad = [bb for bb in ok_sites(wt) if bb in marked]
+    if bad:
+        ctx.violation(["clean-skips-remove"], "in clean mode the temp writer can return Ok for a resolvable target without removing it",
+                      site=ctx.site(wt, bad[0]))
+    else:
+        ctx.ok("clean: Ok only past remove_file or when the target cannot be resolved", site=ctx.site(wt, removes[0]))
+
+
 # =====================================================================================  C08
 prop("C08", "Builds are a function of the sources only (hermetic, idempotent)",
      decided=["R08.1 every write-capable open of an output or temp path is create-or-truncate (File::create / fs::write / an OpenOptions chain with write(true)+truncate(true) and no append)",
@@ -755,7 +782,9 @@ def _cmp_call_edges(b, lib, buf_locals_pred, other_pred, want_eq):
 def _write_gate(ctx, b, tag, write_sites, path_pred, fresh_pred):
     """each write site is guarded by {exists false, equal false}; an Ok return exists on the equal-true edge"""
     lib = ctx.lib
-    is_read = lambda lv: any(leaf_is_call(l, ("std::fs::read", "std::fs::read_to_string")) for l in lv)
+    # the compared operand is the content that was read and nothing else (`Err(NotFound) => Vec::new()` would make a missing
+    # file compare equal to an empty fresh output, which is then never created)
+    is_read = lambda lv: bool(lv) and all(leaf_is_call(l, ("std::fs::read", "std::fs::read_to_string")) for l in lv)
     ne_edges = _cmp_call_edges(b, lib, is_read, fresh_pred, False)
     eq_edges = _cmp_call_edges(b, lib, is_read, fresh_pred, True)
     nex = bool_call_edges(b, lib, "std::path::Path::exists", False, arg_pred=path_pred)
